@@ -10,6 +10,8 @@ import (
 
 	"github.com/vimeo/dials"
 	"github.com/vimeo/dials/sourcewrap"
+	"github.com/vimeo/dials/tagformat"
+	"github.com/vimeo/dials/tagformat/caseconversion"
 
 	"verifharness/conc"
 	"verifharness/fw"
@@ -43,11 +45,40 @@ func init() {
 type c07Env struct {
 	e     *conc.Env
 	blank *sourcewrap.Blank
+	// wrapped: index of the source behind a transforming wrapper (0 = none; slot 0 is never wrapped)
+	wrapped int
+	// stuck: set when a call with a live context did not return
+	stuck string
 }
 
-// report performs a blocking report through the source (Blank.SetSource for
-// the blank slot) and records it.
+// report performs a report through the source (Blank.SetSource for the blank
+// slot) and records it. A call that has not returned after 20s although its
+// context is alive marks the scenario stuck (res -1): the caller turns that
+// into a state-based verdict.
 func (c *c07Env) report(ctx context.Context, client, src int, l *conc.Layer, blocking bool) (int, error) {
+	type out struct {
+		res int
+		err error
+	}
+	ch := make(chan out, 1)
+	go func() {
+		res, err := c.reportRaw(ctx, client, src, l, blocking)
+		ch <- out{res, err}
+	}()
+	select {
+	case o := <-ch:
+		return o.res, o.err
+	case <-time.After(20 * time.Second):
+		if ctx.Err() == nil {
+			c.stuck = fmt.Sprintf("report of %s from source %d (blocking=%v) with a live context", l, src, blocking)
+			return -1, fmt.Errorf("harness: call did not return")
+		}
+		o := <-ch
+		return o.res, o.err
+	}
+}
+
+func (c *c07Env) reportRaw(ctx context.Context, client, src int, l *conc.Layer, blocking bool) (int, error) {
 	e := c.e
 	if c.blank != nil && src == 0 {
 		call := e.S.Tick()
@@ -60,10 +91,20 @@ func (c *c07Env) report(ctx context.Context, client, src int, l *conc.Layer, blo
 	return e.Report(ctx, client, src, l, blocking)
 }
 
-func c07Start(r *fw.Rand, useBlank bool, o conc.Opts) (*c07Env, error) {
+func c07Start(r *fw.Rand, useBlank bool, o conc.Opts, allowWrap ...bool) (*c07Env, error) {
 	if !useBlank {
-		e, err := conc.Start(context.Background(), r.U64(), o, nil)
-		return &c07Env{e: e}, err
+		// sometimes the last source sits behind a (tag-only) transforming wrapper: its WatchArgs are then the wrapper's
+		wrapLast := len(allowWrap) > 0 && allowWrap[0] && r.Chance(35)
+		c := &c07Env{}
+		e, err := conc.StartWith(context.Background(), r.U64(), o, nil, func(i int, def dials.Source) dials.Source {
+			if wrapLast && i == o.NSrc-1 {
+				c.wrapped = i
+				return sourcewrap.NewTransformingSource(def, tagformat.NewTagReformattingMangler("dials", caseconversion.DecodeGoTags, caseconversion.EncodeKebabCase))
+			}
+			return def
+		})
+		c.e = e
+		return c, err
 	}
 	// build by hand: slot 0 is a sourcewrap.Blank
 	conc.InstallHooks()
@@ -78,6 +119,48 @@ func c07Start(r *fw.Rand, useBlank bool, o conc.Opts) (*c07Env, error) {
 	return c, err
 }
 
+// monitorState classifies what the (single live) dials monitor goroutine is doing, from a goroutine dump:
+// "idle" (parked in its own select), "send-in-update" (parked sending a reply), "blocked-in-submit" (parked
+// submitting a callback event), "busy" (anything else), "gone" (no monitor goroutine).
+func monitorState() (string, string) {
+	buf := make([]byte, 2<<20)
+	n := runtime.Stack(buf, true)
+	for _, g := range strings.Split(string(buf[:n]), "\n\n") {
+		if !strings.Contains(g, ").monitor(") {
+			continue
+		}
+		lines := strings.Split(g, "\n")
+		top := ""
+		if len(lines) > 1 {
+			top = lines[1]
+		}
+		switch {
+		case strings.Contains(g, "updateSourceValue") && strings.Contains(lines[0], "[chan send"):
+			return "send-in-update", g
+		case strings.Contains(g, "submitEvent") && (strings.Contains(lines[0], "[select") || strings.Contains(lines[0], "[chan send")):
+			return "blocked-in-submit", g
+		case strings.Contains(top, ").monitor(") && strings.Contains(lines[0], "[select"):
+			return "idle", g
+		}
+		return "busy", g
+	}
+	return "gone", ""
+}
+
+// stuckVerdict is called when an API call has not returned after a generous wait although nothing should block it:
+// two dumps 300ms apart showing the monitor in the same blocked or idle state make it a violation; otherwise inconclusive.
+func stuckVerdict(w *fw.Worker, i int, what string, desc any) {
+	s1, d1 := monitorState()
+	time.Sleep(300 * time.Millisecond)
+	s2, _ := monitorState()
+	if s1 == s2 && (s1 == "idle" || s1 == "send-in-update" || s1 == "blocked-in-submit") {
+		key := map[string]string{"idle": "call-never-answered:monitor-idle", "send-in-update": "monitor-blocked-on-abandoned-caller", "blocked-in-submit": "monitor-blocked-submitting-callback-event"}[s1]
+		w.Violation(i, key, what+": the call did not return; the monitor goroutine is "+s1+" in two dumps 300ms apart", map[string]any{"case": desc, "goroutine": fw.TrimStack(d1)})
+		return
+	}
+	w.Inconclusive(i, what+": call did not return; monitor state "+s1+"/"+s2)
+}
+
 func monitorParkedInSend() (bool, string) {
 	buf := make([]byte, 1<<20)
 	n := runtime.Stack(buf, true)
@@ -89,13 +172,24 @@ func monitorParkedInSend() (bool, string) {
 	return false, ""
 }
 
+// c07Wait waits for a result with a generous watchdog; ok=false means it never came.
+func c07Wait[T any](ch chan T) (T, bool) {
+	select {
+	case v := <-ch:
+		return v, true
+	case <-time.After(15 * time.Second):
+		var z T
+		return z, false
+	}
+}
+
 func runC07(w *fw.Worker) {
 	placements := []string{"before", "in-verify", "at-reply", "after", "random", "none"}
 	w.Cases(func(i int, r *fw.Rand) {
 		placement := placements[(i+w.Shard)%len(placements)]
 		useBlank := r.Chance(35)
 		o := conc.Opts{NSrc: r.Range(2, 3), Skip: r.Chance(20)}
-		c, err := c07Start(r, useBlank, o)
+		c, err := c07Start(r, useBlank, o, true)
 		if err != nil {
 			w.Violation(i, "config-failed", err.Error(), nil)
 			return
@@ -133,6 +227,9 @@ func runC07(w *fw.Worker) {
 		for k := 0; k < nOps; k++ {
 			src := r.Intn(o.NSrc)
 			l := e.RandLayer(r, 30, 8)
+			if c.wrapped != 0 && src == c.wrapped {
+				l.IllTyped = false // the ill-typed probe value is built for the unwrapped type
+			}
 			cls := "valid"
 			if l.NegA || l.NegB {
 				cls = "invalid"
@@ -142,7 +239,16 @@ func runC07(w *fw.Worker) {
 			doCancel := placement != "none" && (k == 1 || r.Chance(25))
 			if !doCancel {
 				blocking := r.Chance(75)
-				res, _ := c.report(ctx, 1, src, l, blocking)
+				rd := make(chan int, 1)
+				go func() { res, _ := c.report(ctx, 1, src, l, blocking); rd <- res }()
+				var res int
+				select {
+				case res = <-rd:
+				case <-time.After(10 * time.Second):
+					stuckVerdict(w, i, fmt.Sprintf("report of %s (blocking=%v) with a live context", l, blocking), desc)
+					e.S.Cancel()
+					return
+				}
 				fmt.Fprintf(&sig, "%d", res)
 				if res == conc.ResNil {
 					e.Read(1)
@@ -177,7 +283,12 @@ func runC07(w *fw.Worker) {
 				case <-reached:
 					// the monitor is inside Verify for this report: abandon it
 					cancel()
-					res := <-done
+					res, ok := c07Wait(done)
+					if !ok {
+						close(release)
+						w.Violation(i, "blocking-report-did-not-return-after-context-ended", "cancelled while the monitor was inside Verify; the call is still blocked 15s later", desc)
+						return
+					}
 					done <- res
 					w.Count("cancel_inside_verify", 1)
 					close(release)
@@ -197,7 +308,12 @@ func runC07(w *fw.Worker) {
 				run()
 				if g.Wait(20 * time.Second) {
 					cancel()
-					res := <-done
+					res, ok := c07Wait(done)
+					if !ok {
+						g.Release()
+						w.Violation(i, "blocking-report-did-not-return-after-context-ended", "cancelled at the reply point; the call is still blocked 15s later", desc)
+						return
+					}
 					done <- res
 					w.Count("cancel_at_reply", 1)
 					g.Release()
@@ -209,7 +325,13 @@ func runC07(w *fw.Worker) {
 				}
 			case "after":
 				run()
-				res := <-done
+				res, ok := c07Wait(done)
+				if !ok {
+					stuckVerdict(w, i, fmt.Sprintf("blocking report of %s with a live context", l), desc)
+					cancel()
+					e.S.Cancel()
+					return
+				}
 				done <- res
 				cancel()
 			case "random":
@@ -272,6 +394,11 @@ func runC07(w *fw.Worker) {
 		last := e.NewLayer()
 		last.Set[3] = true
 		c.report(ctx, 1, o.NSrc-1, last, true)
+		if c.stuck != "" {
+			stuckVerdict(w, i, c.stuck, desc)
+			e.S.Cancel()
+			return
+		}
 		e.Read(1)
 		switch e.H.Check(e.Model, 20*time.Second) {
 		case "ok":
